@@ -60,56 +60,59 @@ def run(ctx, env):
                 return None
             got = local_callees_reaching(prog, fb, r, tname)
             ctx.ob("R5.2", fb.path, "id=%d" % idv, got == want, "set id %d reaches template parsers %s, expected %s" % (idv, sorted(got), sorted(want)))
-    # R5.3
-    pfl = prog.body(IP + "TemplateField::parse_field_length")
-    if ctx.anchor("R5.3", IP + "TemplateField::parse_field_length", pfl):
-        fl = None
-        for blk in sorted(pfl.live_blocks()):
-            t = pfl.term(blk)
-            if t["k"] == "switch":
-                e = peel(an.op(pfl, t["op"]))
-                if e[0] == "field" and e[2] == "field_length":
-                    fl = canon(e)
-                    cases = [v for v, _ in t["targets"]]
-                    ctx.ob("R5.3", pfl.path, "escape-constant", cases == [65535], "switch on field_length has cases %s (RFC 7011: 65535)" % cases)
-                    break
-        if fl is None:
-            ctx.ob("R5.3", pfl.path, "switch-on-field_length", False, "no switch on self.field_length")
-        else:
-            def prims_under(assume):
-                r = reach_assuming(an, pfl, assume)
-                from .layout import prim_of
-                return [(blk, prim_of(c)) for blk, t, c in pfl.calls() if blk in r and c is not None and prim_of(c)]
-            for v in (0, 1, 4, 255, 65534):
-                ps = prims_under({fl: v})
-                ctx.ob("R5.3", pfl.path, "fixed-length:%d" % v, not ps, "template length %d reads %s from the data" % (v, [p[1][1] for p in ps] or "nothing"))
-            ps = prims_under({fl: 65535})
-            names = sorted(p[1][1] for p in ps)
-            ctx.ob("R5.3", pfl.path, "variable-length-prefix", names == ["nom::number::complete::be_u16", "nom::number::complete::be_u8"] or [p[1][2] for p in sorted(ps, key=lambda x: x[1][2])] == [1, 2],
-                   "under 65535 the function can read %s" % names)
-            # the 255 test
-            esc = None
-            for blk in sorted(pfl.live_blocks()):
-                t = pfl.term(blk)
-                if t["k"] == "switch":
-                    e, neg = strip_not(an.op(pfl, t["op"]))
-                    if e[0] == "binop" and e[1] in ("Eq", "Ne", "Ge", "Lt") and const_eval(e[3]) in ({255}, {254}):
-                        esc = (e[1], const_eval(e[3]), e[2], blk, neg)
-            ok = esc is not None and ((esc[0] in ("Eq", "Ne") and esc[1] == {255}) or (esc[0] in ("Ge", "Lt") and esc[1] == {255}))
-            src_ok = False
-            if esc:
-                x = peel(esc[2])
-                src_ok = x[0] == "tfield" and x[2] == 1 and x[1][0] == "ok" and peel(x[1][1])[0] == "call" and peel(x[1][1])[2].npath.endswith("be_u8")
-            ctx.ob("R5.3", pfl.path, "escape-255", bool(ok and src_ok), "long-form test: %s" % (("%s %s on %s" % (esc[0], esc[1], canon(peel(esc[2]))[:80])) if esc else "not found"))
-            # be_u16 only reachable when the byte == 255
-            if esc:
-                t = pfl.term(esc[3])
-                be = bool_edges(t, esc[4])
-                if be:
-                    tt, ff = be
-                    long_edge = tt if esc[0] in ("Eq", "Ge") else ff
-                    u16 = [blk for blk, p in ps if p[2] == 2]
-                    ctx.ob("R5.3", pfl.path, "be_u16-only-after-255", bool(u16) and all(pfl.edge_dominates((esc[3], long_edge), b) for b in u16), "be_u16 at blocks %s" % u16)
+    # R5.3 (role-based: the IPFIX per-field decoder and the private helpers it calls, whatever they are named)
+    from . import records as _rec
+    from .layout import prim_of
+    Rx = _rec.Records(prog, an, IP + "Data::parse_be")
+    if not Rx.ok:
+        ctx.ob("R5.3", IP + "Data", "field-decoder", False, Rx.why)
+    else:
+        _, _, fdc = Rx.site()
+        fd_bodies = []
+        seen_p = set()
+        st_ = [fdc.path]
+        while st_:
+            pth = st_.pop()
+            if pth in seen_p or pth not in prog.bodies or pth == c04.FFT:
+                continue
+            seen_p.add(pth)
+            bb = prog.bodies[pth]
+            fd_bodies.append(bb)
+            for blk, t, c in bb.calls():
+                if c is not None and c.local and c.path.startswith(IP):
+                    st_.append(c.path)
+        FL = canon(("field", ("arg", 1), "field_length", IP + "TemplateField"))
+        FL2 = canon(("field", ("deref", ("arg", 1)), "field_length", IP + "TemplateField"))
+
+        def reads_under(assume):
+            if FL in assume:
+                assume = dict(assume)
+                assume[FL2] = assume[FL]
+            out = []
+            for bb in fd_bodies:
+                r = reach_assuming(an, bb, assume)
+                for blk, t, c in bb.calls():
+                    if blk in r and c is not None and prim_of(c):
+                        out.append((bb, blk, prim_of(c), t))
+            return out
+
+        # the byte read as the short length
+        all_reads = reads_under({})
+        ctx.ob("R5.3", fdc.path, "prefix-primitives", sorted(p[2][2] for p in all_reads) == [1, 2] and all(p[2][3] == "be" for p in all_reads),
+               "length-prefix reads in the field decoder: %s" % [p[2][1] for p in all_reads])
+        for v in (0, 1, 4, 255, 256, 65534):
+            ps = reads_under({FL: v})
+            ctx.ob("R5.3", fdc.path, "fixed-length:%d" % v, not ps, "template length %d reads %s from the data before the value" % (v, [p[2][1] for p in ps] or "nothing"))
+        ps = reads_under({FL: 65535})
+        ctx.ob("R5.3", fdc.path, "variable-length:65535", sorted(p[2][2] for p in ps) == [1, 2], "template length 65535 can read %s" % [p[2][1] for p in ps])
+        u8s = [p for p in all_reads if p[2][2] == 1]
+        if u8s:
+            bb, blk, pr, t = u8s[0]
+            BYTE = canon(("tfield", ("ok", an.simp(an.slicer(bb).call_expr(blk, bb.term(blk)))), 1))
+            for bv, want in ((0, [1]), (1, [1]), (254, [1]), (255, [1, 2])):
+                ps2 = reads_under({FL: 65535, BYTE: bv})
+                ctx.ob("R5.3", fdc.path, "short-length-byte:%d" % bv, sorted(p[2][2] for p in ps2) == want,
+                       "first length byte %d -> reads of width %s (expected %s)" % (bv, sorted(p[2][2] for p in ps2), want))
     # R5.4
     Lt = lay.parser_layout(c04.pe_path(IP + "TemplateField"))
     if ctx.anchor("R5.4", c04.pe_path(IP + "TemplateField"), prog.body(c04.pe_path(IP + "TemplateField"))) and Lt["ok"]:
